@@ -15,8 +15,10 @@ package main
 import (
 	"fmt"
 	"strings"
+	"sync"
 	"time"
 
+	"github.com/krotik/ecal/interpreter"
 	"github.com/krotik/ecal/parser"
 )
 
@@ -96,6 +98,67 @@ func c14Payload(src string) (string, bool) {
 	return p, true
 }
 
+// c14RunShared evaluates ONE parsed literal node re-entrantly (REC: an embedded
+// expression calls x.rec, which evaluates the same node again with n-1) or from
+// several goroutines at once (PAR: thread i evaluates it repeatedly with n = i).
+func c14RunShared(payload string) string {
+	f := strings.Split(payload, " ")
+	var k int
+	fmt.Sscanf(f[1], "%d", &k)
+	src := unhx(f[2])
+	erp := interpreter.NewECALRuntimeProvider("t", nil, &memLog{})
+	ast, err := parser.ParseWithRuntime("t", src, erp)
+	if err == nil {
+		err = ast.Runtime.Validate()
+	}
+	if err != nil {
+		return "ERR " + oneLine(err.Error())
+	}
+	evalWith := func(n int) string {
+		vs := c14Scope()
+		vs.SetValue("n", float64(n))
+		res, err := ast.Runtime.Eval(vs, make(map[string]interface{}), erp.NewThreadID())
+		if err != nil {
+			return "ERR"
+		}
+		return hx(fmt.Sprint(res))
+	}
+	if f[0] == "REC" {
+		c14Rec = func(n int) string {
+			if n <= 0 {
+				return "."
+			}
+			return unhx(evalWith(n - 1))
+		}
+		return evalWith(k)
+	}
+	outs := make([]string, k)
+	var wg sync.WaitGroup
+	for i := 0; i < k; i++ {
+		wg.Add(1)
+		go func(i int) {
+			defer wg.Done()
+			defer func() {
+				if e := recover(); e != nil {
+					outs[i] = "PANIC"
+				}
+			}()
+			first := evalWith(i)
+			for r := 0; r < 300; r++ {
+				if evalWith(i) != first {
+					first = "MIXED"
+					break
+				}
+			}
+			outs[i] = first
+		}(i)
+	}
+	wg.Wait()
+	return strings.Join(outs, ",")
+}
+
+var c14Rec func(n int) string
+
 func init() {
 	atoms := []string{"{{", "}}", "{", "}", `\"`, "'", `\n`, "a", "b", "c", "d", "e", "f", "1", "+", " ",
 		"x.cnt(1)", "x.cnt(2)", `\\`, `{`, `}`, "é"}
@@ -103,6 +166,10 @@ func init() {
 	register("C14", &Prop{
 		Timeout: 2 * time.Second,
 		Setup: func() {
+			registerX("rec", func(args []interface{}) (interface{}, error) {
+				n, _ := args[0].(float64)
+				return c14Rec(int(n)), nil
+			})
 			registerX("cnt", func(args []interface{}) (interface{}, error) {
 				c14Log = append(c14Log, fmt.Sprint(args...))
 				return "c" + fmt.Sprint(args...), nil
@@ -128,6 +195,43 @@ func init() {
 				}
 				g.Count("corpus")
 				g.Emit(p)
+			}
+			// re-entrant and concurrent evaluation of ONE literal node (kinds REC and PAR)
+			nRP := 150
+			if g.Thorough() {
+				nRP = 3000
+			}
+			rpText := []string{"<", ">", " ", "{", "}", "}}", "-", "é"}
+			rpCode := []string{"n", "n", "a", "b", "1+1", "e", "f", "nope"}
+			for i := 0; i < nRP; i++ {
+				var sb strings.Builder
+				np := 1 + g.R.Intn(5)
+				for k := 0; k < np; k++ {
+					switch g.R.Intn(4) {
+					case 0:
+						sb.WriteString(rpText[g.R.Intn(len(rpText))])
+					case 1:
+						if i%2 == 0 {
+							sb.WriteString("{{x.rec(n)}}")
+						} else {
+							sb.WriteString("{{n}}")
+						}
+					default:
+						sb.WriteString("{{" + rpCode[g.R.Intn(len(rpCode))] + "}}")
+					}
+				}
+				src := `"` + sb.String() + `"`
+				p, ok := c14Payload(src)
+				if !ok {
+					continue
+				}
+				if i%2 == 0 {
+					g.Count("kind REC")
+					g.Emit(fmt.Sprintf("REC %d %s", 1+g.R.Intn(4), p))
+				} else {
+					g.Count("kind PAR")
+					g.Emit(fmt.Sprintf("PAR %d %s", 2+g.R.Intn(7), p))
+				}
 			}
 			maxLen := 3
 			nRandom := 6000
@@ -183,6 +287,9 @@ func init() {
 			}
 		},
 		Run: func(payload string) string {
+			if strings.HasPrefix(payload, "REC ") || strings.HasPrefix(payload, "PAR ") {
+				return c14RunShared(payload)
+			}
 			src := unhx(strings.SplitN(payload, " ", 2)[0])
 			c14Log = nil
 			res, err := evalProgram(src, c14Scope(), &memLog{})
